@@ -41,15 +41,3 @@ Qed.
 Lemma quiet_silent_lemma v f : may_write true v f = false.
 Proof. reflexivity. Qed.
 
-(* raising the verbosity or leaving quiet mode never removes what an entry point wrote before *)
-Lemma may_write_mono q v v' f : (0 <= v <= v')%Z -> may_write q v f = true -> may_write false v' f = true.
-Proof.
-  intros Hv H. destruct q; [discriminate|]. exact (gate_monotone_lemma v v' f Hv H).
-Qed.
-Lemma emits_monotone_lemma k a m q v v' f : (0 <= v <= v')%Z ->
-  emits k a m q v f = true -> emits k a m false v' f = true.
-Proof.
-  intros Hv. unfold emits. destruct (path k a m) as [p|]; [|discriminate].
-  induction p as [|s r IH]; cbn [forallb]; [reflexivity|]. intros H. apply andb_prop in H as [H1 H2].
-  rewrite (may_write_mono q v v' _ Hv H1), (IH H2). reflexivity.
-Qed.
